@@ -4,6 +4,7 @@
 package fdo
 
 import (
+	"crypto"
 	"crypto/hmac"
 	"crypto/sha256"
 	"crypto/sha512"
@@ -13,6 +14,17 @@ import (
 	"github.com/fido-device-onboard/go-fdo/cbor"
 	"github.com/fido-device-onboard/go-fdo/protocol"
 )
+
+// hashFuncFor returns the hash function for an algorithm identifier that was
+// received from a peer. Unlike [protocol.HashAlg.HashFunc], it does not panic
+// for unknown identifiers.
+func hashFuncFor(alg protocol.HashAlg) (crypto.Hash, error) {
+	switch alg {
+	case protocol.Sha256Hash, protocol.HmacSha256Hash, protocol.Sha384Hash, protocol.HmacSha384Hash:
+		return alg.HashFunc(), nil
+	}
+	return 0, fmt.Errorf("unsupported hash algorithm: %d", int64(alg))
+}
 
 type fallibleHash interface {
 	Err() error
